@@ -151,8 +151,10 @@ def _layout_chunk(args):
                 ms = list(pm.finditer(pattern, text))
                 fa = pm.findall(pattern, text)
                 se = pm.search(pattern, text)
+                [(m.string, m.lineno, m.col_offset, m.start, m.end) for m in ms]      # the accessors must not raise either
             except Exception as exc:  # noqa: BLE001
-                bad.append({"kind": "raised", "what": f"finditer/findall/search raised {type(exc).__name__}: {exc}", "layout": l, "source": text, "gap": rec["gap"]})
+                bad.append({"kind": "raised", "what": f"finditer/findall/search or a Match accessor raised {type(exc).__name__}: {exc}", "layout": l,
+                            "source": text, "gap": rec["gap"]})
                 continue
             problems = []
             if len(ms) != 1:
@@ -180,7 +182,7 @@ def _layout_chunk(args):
                     if isinstance(exc, KeyboardInterrupt):
                         raise
                     lines = [f"raised {type(exc).__name__}: {exc}"]
-                want = [f"{Path(tmpdir, 'case.py')}:{m.lineno}:{m.col_offset}: {m.string.splitlines()[0]}" for m in ms]
+                want = [f"{Path(tmpdir, 'case.py')}:{m.lineno}:{m.col_offset}: {(m.string.splitlines() or [''])[0]}" for m in ms]
                 got = [x for x in lines if x]
                 # the file is read back through universal newlines: compare locations, which are what the statement is about
                 loc = lambda x: x.split(": ")[0]
@@ -207,11 +209,12 @@ def _api_chunk(recs):
     for rec in recs:
         c = rec["case"]
         stmts = [STMT[k] for k in c["stmts"]]
-        text = "\n".join(stmts) + EOL[c["feol"]]
+        lead = {"none": "", "blank": "\n", "comment": "# c\n"}[c["lead"]]
+        text = lead + "\n".join(stmts) + EOL[c["feol"]]
         pattern = PAT[c["pat"]]
         st["api_cases"] += 1
         # statement offsets
-        offs, pos = [], 0
+        offs, pos = [], len(lead)
         for s in stmts:
             offs.append((pos, pos + len(s)))
             pos += len(s) + 1
@@ -222,6 +225,7 @@ def _api_chunk(recs):
             se = pm.search(pattern, text)
             ma = pm.match(pattern, text)
             fu = pm.fullmatch(pattern, text)
+            [(m.string, m.lineno, m.col_offset, m.start, m.end) for m in ms]
         except Exception as exc:  # noqa: BLE001
             bad.append({"what": f"the API raised {type(exc).__name__}: {exc}", "case": c, "source": text})
             continue
